@@ -113,9 +113,11 @@ def find_islands(im, bkg, rms,
         if np.any(snr[xmin:xmax, ymin:ymax] > seed_clip):
             # obey region constraint
             if region is not None:
-                y, x = np.where(snr[xmin:xmax, ymin:ymax] >= flood_clip)
+                # (row, column) indices of the island pixels within the box
+                x, y = np.where(snr[xmin:xmax, ymin:ymax] >= flood_clip)
+                # wcs wants zero-based (column, row) image coordinates
                 yx = list(zip(y + ymin, x + xmin))
-                ra, dec = wcs.wcs.wcs_pix2world(yx, 1).transpose()
+                ra, dec = wcs.wcs.wcs_pix2world(yx, 0).transpose()
                 mask = region.sky_within(ra, dec, degin=True)
                 if not np.any(mask):
                     continue
